@@ -1,0 +1,24 @@
+//go:build verif
+// +build verif
+
+package verifbridge
+
+import (
+	"reflect"
+
+	"github.com/bytedance/sonic/internal/caching"
+	"github.com/bytedance/sonic/internal/rt"
+)
+
+// PCache is a private instance of the RCU program cache (the structure behind
+// the encoder and decoder codec caches), driven through its real Get/Compute
+// entry points with reflect types as keys.
+type PCache struct{ c *caching.ProgramCache }
+
+func NewPCache() *PCache { return &PCache{c: caching.CreateProgramCache()} }
+
+func (p *PCache) Get(t reflect.Type) interface{} { return p.c.Get(rt.UnpackType(t)) }
+
+func (p *PCache) Compute(t reflect.Type, mk func() (interface{}, error)) (interface{}, error) {
+	return p.c.Compute(rt.UnpackType(t), func(*rt.GoType, ...interface{}) (interface{}, error) { return mk() })
+}
